@@ -351,6 +351,23 @@ func (s *seqRun) checkState(where string) {
 	s.res.Count("full_state_comparisons", 1)
 }
 
+// otherMediaType: another media type under which the same bytes may be described.
+func otherMediaType(mt string) string {
+	switch mt {
+	case mtManifest:
+		return mtDockerManifest
+	case mtDockerManifest:
+		return mtManifest
+	case mtIndex:
+		return "application/vnd.docker.distribution.manifest.list.v2+json"
+	case mtLayer:
+		return mtOctet
+	case mtOctet, mtTwin:
+		return mtLayer
+	}
+	return mtOctet
+}
+
 func corrupt(b []byte, rng *rand.Rand) []byte {
 	out := append([]byte{}, b...)
 	if len(out) > 1 && rng.IntN(3) == 0 {
@@ -513,22 +530,51 @@ func runSeq(i int, seed int64) worker.Result {
 				s.fail("exists:mismatch", fmt.Sprintf("%s: Exists(%s) = %v, model presence %v", where, it.Label, ex, p == pYes))
 			}
 		case w < 60: // Tag
+			// the descriptor handed to Tag varies while the content stays what was pushed:
+			// plain, annotations, artifactType, platform, and (digest-keyed oci store) the same
+			// digest described under another media type; Resolve must return exactly it
 			d := it.Desc
-			if rng.IntN(2) == 0 {
+			variant := ""
+			annotate := func() {
 				d.Annotations = map[string]string{"verif.step": fmt.Sprint(n)}
 				for k, v := range it.Desc.Annotations {
 					d.Annotations[k] = v
 				}
 			}
+			switch v := rng.IntN(8); {
+			case v < 3:
+			case v < 5:
+				annotate()
+				variant = "+ann" + fmt.Sprint(n)
+			case v == 5:
+				d.ArtifactType = "application/vnd.verif.at" + fmt.Sprint(n%3)
+				if rng.IntN(2) == 0 {
+					annotate()
+				}
+				variant = "+artifactType" + fmt.Sprint(n%3)
+			case v == 6:
+				d.Platform = &ocispec.Platform{Architecture: []string{"amd64", "arm64"}[n%2], OS: "linux"}
+				variant = "+platform" + fmt.Sprint(n%2)
+			case kind == "oci":
+				d.MediaType = otherMediaType(d.MediaType)
+				variant = "+as:" + d.MediaType
+			}
 			p := m.presence(it)
 			err := h.t.Tag(ctx, d, ref)
 			c := classify(err)
-			s.log("Tag(%s%s, %q) = %.60s", it.Label, d.Annotations["verif.step"], ref, c)
+			s.log("Tag(%s%s, %q) = %.60s", it.Label, variant, ref, c)
 			s.sig = append(s.sig, "T"+c[:2])
 			s.steps++
 			okTag := func() {
-				if old, was := m.tags[ref]; was && old.Digest != d.Digest {
-					s.retagMoved++
+				if old, was := m.tags[ref]; was {
+					switch {
+					case old.Digest != d.Digest:
+						s.retagMoved++
+					case old.MediaType != d.MediaType:
+						s.res.Count("seq_retag_same_digest_other_media_type", 1)
+					case descJSON(old) != descJSON(d):
+						s.res.Count("seq_retag_same_digest_other_descriptor", 1)
+					}
 				}
 				m.tags[ref] = d
 			}
@@ -611,17 +657,13 @@ func runSeq(i int, seed int64) worker.Result {
 				delete(m.tags, ref)
 			}
 		case w < 94: // Delete (oci)
-			// unjudged shape: a tag naming these bytes under another media type would be left
-			// pointing at removed content; the statement does not say what Delete does to it
-			skip := false
+			// the oci store keeps content by digest: every reference naming the digest goes with
+			// the blob, whatever media type it was tagged with (no reference names absent content)
 			for _, t := range m.tags {
 				if t.Digest == it.Desc.Digest && !content.Equal(t, it.Desc) {
-					skip = true
+					s.res.Count("seq_delete_under_other_media_type_tag", 1)
+					break
 				}
-			}
-			if skip {
-				s.res.Count("unjudged_delete_under_twin_tag", 1)
-				continue
 			}
 			p := m.presence(it)
 			err := h.oci.Delete(ctx, it.Desc)
@@ -643,7 +685,7 @@ func runSeq(i int, seed int64) worker.Result {
 			}
 			delete(m.present, m.key(it))
 			for r, t := range m.tags {
-				if content.Equal(t, it.Desc) {
+				if t.Digest == it.Desc.Digest {
 					delete(m.tags, r)
 				}
 			}
